@@ -135,6 +135,39 @@ func (p c03) Run(w *mon.Worker, idx int) mon.Result {
 		return false
 	}
 
+	if fam == "fresh" && idx%12 == 0 {
+		// keys that look like patterns: the entry selected by a predicate on its VALUE must be the only one removed
+		globs := []string{"*", "a*", "?", "*c", "??", "k*", "*.example.com", "a?c"}
+		sibs := []string{"a", "ab", "c", "abc", "kk", "k1", "www.example.com", "x"}
+		m := &ref.V{K: ref.Map, M: []ref.KV{}}
+		for i := 0; i < 2+r.IntN(3); i++ {
+			k := sibs[r.IntN(len(sibs))]
+			if _, dup := m.Get(k); !dup {
+				m.M = append(m.M, ref.KV{K: k, V: gen.SimpleValue(r, 1)})
+			}
+		}
+		gk := globs[r.IntN(len(globs))]
+		pos := r.IntN(len(m.M) + 1)
+		m.M = append(m.M[:pos:pos], append([]ref.KV{{K: gk, V: ref.StrV("VICTIM")}}, m.M[pos:]...)...)
+		wrap := ref.MapV(ref.KV{K: "keep", V: ref.IntV(1)}, ref.KV{K: "m", V: m})
+		doc = wrap
+		cs["doc"] = doc.JSON()
+		expr := []string{`del(.m[] | select(. == "VICTIM"))`, `del(.. | select(. == "VICTIM"))`, `del(.m | .[] | select(tag == "!!str" and . == "VICTIM"))`}[r.IntN(3)]
+		cs["expr"] = expr
+		res.Tags = append(res.Tags, "glob_key")
+		res.Sig = fmt.Sprintf("globkey|%s|%x", gk, doc.ShapeHash())
+		want := ref.DeletePaths(doc, [][]any{{"m", gk}})
+		got, _, yerr := evalDoc(expr, doc)
+		res.Evals++
+		if yerr != nil {
+			return fail("`%s` failed: %v", expr, yerr)
+		}
+		if got == nil || !ref.EqualNum(got, want) {
+			return fail("`%s`\n input    %s\n expected %s\n observed %s", expr, doc, want, got)
+		}
+		res.Verdict, res.Nontrivial, res.Detail = mon.Held, true, "only the selected entry removed"
+		return res
+	}
 	switch fam {
 	case "fresh":
 		pe, ts, err := sel(doc)
